@@ -491,6 +491,10 @@ def rename_copy(fn: ast.AST, mapping: Dict[str, str]) -> ast.AST:
     code whose locals were renamed (the mapping is computed by role, e.g. 'the name bound to peek_first(...)[1]')."""
     mapping = {k: v for k, v in mapping.items() if k and v and k != v}
     c = _copy_without_parents(fn)
+    for n in ast.walk(c):  # memoised facts of the original nodes do not survive renaming
+        for a in ("_txt_memo", "_stored_memo", "_mr_memo", "_cy_memo", "_locals"):
+            if hasattr(n, a):
+                delattr(n, a)
     if mapping:
         clash = set(mapping.values()) & ({n.id for n in ast.walk(c) if isinstance(n, ast.Name)} - set(mapping))
         for n in ast.walk(c):
